@@ -136,34 +136,60 @@ theorem splitC_frames {α} [DecidableEq α] (sep : α) (items : List (List α)) 
 
 /-! ### lineFeed / lineRun in terms of splitC of the whole stream -/
 
-theorem lineFeed_eq (acc c : List Char) (ha : '\n' ∉ acc) :
-    lineFeed acc c = ((splitC '\n' (acc ++ c)).dropLast, lastP (splitC '\n' (acc ++ c))) := by
-  unfold lineFeed
-  rw [splitC_nosep_append '\n' acc c ha]
-  cases h : splitC '\n' c with
+theorem lineFeedG_eq {α} [DecidableEq α] (nl : α) (acc c : List α) (ha : nl ∉ acc) :
+    lineFeedG nl acc c = ((splitC nl (acc ++ c)).dropLast, lastP (splitC nl (acc ++ c))) := by
+  unfold lineFeedG
+  rw [splitC_nosep_append nl acc c ha]
+  cases h : splitC nl c with
   | nil => exact absurd h (splitC_ne_nil _ c)
   | cons p ps => simp
 
-theorem lineRun_eq : ∀ (cs : List (List Char)) (acc : List Char), '\n' ∉ acc →
-    (lineRun acc cs).1.flatten = (splitC '\n' (acc ++ cs.flatten)).dropLast ∧
-    (lineRun acc cs).2 = lineFinish (lastP (splitC '\n' (acc ++ cs.flatten))) := by
+theorem lineRunG_eq {α} [DecidableEq α] (nl : α) : ∀ (cs : List (List α)) (acc : List α), nl ∉ acc →
+    (lineRunG nl acc cs).1.flatten = (splitC nl (acc ++ cs.flatten)).dropLast ∧
+    (lineRunG nl acc cs).2 = lineFinishG (lastP (splitC nl (acc ++ cs.flatten))) := by
   intro cs
   induction cs with
   | nil =>
     intro acc ha
-    simp [lineRun, splitC_nosep _ acc ha, lastP]
+    simp [lineRunG, splitC_nosep _ acc ha, lastP]
   | cons c cs ih =>
     intro acc ha
-    simp only [lineRun, List.flatten_cons]
-    rw [lineFeed_eq acc c ha]
-    have hl := lastP_splitC_nosep '\n' (acc ++ c)
-    have := ih (lastP (splitC '\n' (acc ++ c))) hl
+    simp only [lineRunG, List.flatten_cons]
+    rw [lineFeedG_eq nl acc c ha]
+    have hl := lastP_splitC_nosep nl (acc ++ c)
+    have := ih (lastP (splitC nl (acc ++ c))) hl
     simp only
-    rw [this.1, this.2, ← List.append_assoc acc c, splitC_append '\n' (acc ++ c) cs.flatten]
-    have hne : splitC '\n' (lastP (splitC '\n' (acc ++ c)) ++ cs.flatten) ≠ [] := splitC_ne_nil _ _
+    rw [this.1, this.2, ← List.append_assoc acc c, splitC_append nl (acc ++ c) cs.flatten]
+    have hne : splitC nl (lastP (splitC nl (acc ++ c)) ++ cs.flatten) ≠ [] := splitC_ne_nil _ _
     refine ⟨?_, ?_⟩
     · rw [List.dropLast_append_of_ne_nil hne]
     · rw [lastP_append _ _ hne]
+
+/-- generic form of C15_line: items without the newline, an unterminated tail, any chunking -/
+theorem lineRunG_frames {α} [DecidableEq α] (nl : α) (items : List (List α)) (tail : List α) (cs : List (List α))
+    (hi : ∀ it ∈ items, nl ∉ it) (ht : nl ∉ tail)
+    (hcs : cs.flatten = (items.map (· ++ [nl])).flatten ++ tail) :
+    (lineRunG nl [] cs).1.flatten = items ∧
+    (lineRunG nl [] cs).2 = (if tail = [] then [] else [tail]) := by
+  have h := lineRunG_eq nl cs [] (by simp)
+  simp only [List.nil_append] at h
+  have hs : splitC nl cs.flatten = items ++ [tail] := by
+    rw [hcs]; exact splitC_frames nl items tail hi ht
+  rw [h.1, h.2, hs]
+  refine ⟨by simp, ?_⟩
+  have : lastP (items ++ [tail]) = tail := by simp [lastP]
+  rw [this]
+  unfold lineFinishG
+  cases tail <;> simp
+
+theorem lineFeed_eq (acc c : List Char) (ha : '\n' ∉ acc) :
+    lineFeed acc c = ((splitC '\n' (acc ++ c)).dropLast, lastP (splitC '\n' (acc ++ c))) :=
+  lineFeedG_eq '\n' acc c ha
+
+theorem lineRun_eq : ∀ (cs : List (List Char)) (acc : List Char), '\n' ∉ acc →
+    (lineRun acc cs).1.flatten = (splitC '\n' (acc ++ cs.flatten)).dropLast ∧
+    (lineRun acc cs).2 = lineFinish (lastP (splitC '\n' (acc ++ cs.flatten))) :=
+  lineRunG_eq '\n'
 
 end Rx
 
